@@ -387,7 +387,7 @@ func apiSpecs() []*HarnessSpec {
 		// 12 x 12 two-byte keys (nested 257-bit nodes; 25: with labels up to 0xff); runs=112: the first twelve keys share one value
 		q3 = append(q3, l3Grid(p.check, []int{19, 25}, p.small[:2], enc3, []int{0, 112, 12}, lqS))
 		// prefix keys of 9..63 bytes followed by a separator byte below 0x10 (pairs, triples)
-		q3 = append(q3, l3Grid(p.check, []int{23, 24}, p.small[:2], enc3, []int{0, 2}, lqS))
+		q3 = append(q3, l3Grid(p.check, []int{23, 24, 26}, p.small[:2], enc3, []int{0, 2}, lqS))
 		// a root with all 256 byte branches (17), and the empty key as well (18)
 		if len(p.lqQ) > 1 {
 			// (a symbolic first query byte forks into all 256 branches: one option case, runs of 3)
@@ -463,10 +463,10 @@ func apiSpecs() []*HarnessSpec {
 		Note: "L2: NewIter/ScanFrom/ScanFromTo on Complete tries with symbolic start/end, inclusivities and withValue symbolic; the t-th yield must be the t-th retained key in range with its encoded value; exhaustion persists. n=2 key bytes range over a 6-letter nibble-diverse alphabet (the scan code forks per label bit)"})
 	out = append(out, &HarnessSpec{Name: "l3_api", Pkg: "trie", Property: "C04", Witness: 1,
 		Quick: []Grid{{"skel": {0, 1, 2, 3}, "opt": {9}, "enc": {1}, "runs": {0, 2}, "check": {4}, "lq": {1, 2}, "api": {0}, "le": {1}, "stop": {0}},
-			{"skel": {7}, "opt": {9}, "enc": {1}, "runs": {0, 2}, "check": {4}, "lq": {1}, "api": {0}, "le": {1}, "stop": {0}}, // (two symbolic start bytes on the 512-bit skeleton: minutes per item, thorough tier)
+			{"skel": {7}, "opt": {9}, "enc": {1}, "runs": {0, 2}, "check": {4}, "lq": {1}, "api": {0}, "le": {1}, "stop": {0}},                            // (two symbolic start bytes on the 512-bit skeleton: minutes per item, thorough tier)
 			{"skel": {100, 102, 104, 106, 108, 310}, "opt": {9}, "enc": {1}, "runs": {0, 3}, "check": {4}, "lq": {1}, "api": {0}, "le": {1}, "stop": {0}}, // larger sweeps / aligned sets: thorough (minutes per item)
 			{"skel": {0}, "opt": {9}, "enc": {2}, "runs": {0}, "check": {4}, "lq": {1}, "api": {0, 2}, "le": {2}, "stop": {0}},
-			{"skel": {12, 13, 14, 23, 24, 25}, "opt": {9}, "enc": {1}, "runs": {0}, "check": {4}, "lq": {1}, "api": {0}, "le": {1}, "stop": {0}},
+			{"skel": {12, 13, 14, 23, 24, 25, 26}, "opt": {9}, "enc": {1}, "runs": {0}, "check": {4}, "lq": {1}, "api": {0}, "le": {1}, "stop": {0}},
 			{"skel": {18}, "opt": {9}, "enc": {1}, "runs": {0}, "check": {4}, "lq": {0}, "api": {0}, "le": {1}, "stop": {0}},
 			{"skel": {0, 1, 2, 20, 21, 22, 101}, "opt": {9}, "enc": {1}, "runs": {0}, "check": {4}, "lq": {0}, "api": {0, 2}, "le": {0, 1}, "stop": {0}}, // the empty start / end string
 			// a second pair of scans after the first iterator was polled past its end
@@ -513,7 +513,7 @@ func apiSpecs() []*HarnessSpec {
 			{"n": {2}, "L": {2}, "lens": rng(0, 8), "opt": optsDistinct, "enc": {1, 0, 3}, "check": {19}, "lq": {0}, "cv": {0, 2}, "alpha": {1}}},
 		Note: "String() on every build path: no panic, one line per node, leaf lines carry the retained (concrete) values in key order"})
 	out = append(out, &HarnessSpec{Name: "l3_api", Pkg: "trie", Property: "C19", Witness: 1,
-		Quick: []Grid{{"skel": {0, 1, 2, 3, 4, 5, 6, 7, 8, 12, 13, 14, 17, 18, 19, 23, 24, 25}, "opt": {16, 9}, "enc": {1}, "runs": {0, 2}, "check": {19}, "lq": {0}, "loaded": {0, 1}},
+		Quick: []Grid{{"skel": {0, 1, 2, 3, 4, 5, 6, 7, 8, 12, 13, 14, 17, 18, 19, 23, 24, 25, 26}, "opt": {16, 9}, "enc": {1}, "runs": {0, 2}, "check": {19}, "lq": {0}, "loaded": {0, 1}},
 			{"skel": {16}, "opt": {16, 9}, "enc": {1}, "runs": {0}, "check": {19}, "lq": {0}, "loaded": {0, 1}}, // thousands of nodes (ids of four and more digits)
 			{"skel": append(step(100, 150, 1), append(rng(300, 306), rng(310, 315)...)...), "opt": {16, 9}, "enc": {1}, "runs": {0}, "check": {19}, "lq": {0}, "loaded": {0}}},
 		Thorough: []Grid{{"skel": {0, 1, 2, 3, 4, 5, 6, 7, 8, 9}, "opt": optsDistinct, "enc": {1, 3}, "runs": {0, 1, 2, 3}, "check": {19}, "lq": {0}, "loaded": {0, 1}}},
@@ -530,7 +530,7 @@ func apiSpecs() []*HarnessSpec {
 		Quick: []Grid{{"skel": {0, 1, 2, 4, 5, 10}, "opt": {16, 9}, "enc": {1}, "runs": {0, 2}, "check": {5}, "lq": {1, 2}},
 			{"skel": {100, 102, 104}, "opt": {16, 9}, "enc": {1}, "runs": {0}, "check": {5}, "lq": {1}},
 			{"skel": {8, 9, 7}, "opt": {9, 4, 2}, "enc": {1}, "runs": {0}, "check": {5}, "lq": {1}}, // 64 / 128 leaves, 512-bit Inners: word-aligned counts with every prefix mode
-			{"skel": {12, 13, 14, 19, 23, 24, 25}, "opt": {16, 9}, "enc": {1}, "runs": {0}, "check": {5}, "lq": {1}},
+			{"skel": {12, 13, 14, 19, 23, 24, 25, 26}, "opt": {16, 9}, "enc": {1}, "runs": {0}, "check": {5}, "lq": {1}},
 			{"skel": {17, 18}, "opt": {16}, "enc": {1}, "runs": {0}, "check": {5}, "lq": {0}},
 			{"skel": {0, 13}, "opt": {16, 9}, "enc": {1}, "runs": {0}, "check": {5}, "lq": {1}, "qkey": {-1}, "qtail": {40}},
 			{"skel": append(step(105, 150, 5), 300, 301, 303, 304, 310, 311, 314), "opt": {16, 9, 4}, "enc": {1}, "runs": {0}, "check": {5}, "lq": {1}, "det": {0}}},
@@ -632,6 +632,9 @@ func apiSpecs() []*HarnessSpec {
 			{"keys": {7, 105, 154}, "bs": {1, 3}, "lq": {1}, "other": {1, 2, 3}}},
 		Thorough: []Grid{{"keys": append([]int{7, 154, 194, 342, 623}, step(105, 400, 15)...), "bs": {1, 2, 3, 7, 64}, "lq": {1, 2}}, {"keys": {7, 105, 120, 154, 194, 342}, "bs": {1, 3, 64}, "lq": {1}, "other": {1, 2, 3}}},
 		Note:     "L3: concrete key sets (257-bit root, 64-aligned bitmap lengths / leaf counts / inner-node counts, sweeps) with block sizes 1..64: every indexed key returns its record; a symbolic query is found exactly when indexed"})
+	out = append(out, &HarnessSpec{Name: "ix_longrun", Pkg: "index", Property: "C12", Witness: 1,
+		Quick: []Grid{{"run": {2047, 16384, 32768, 40000}, "fan": {12}}},
+		Note:  "shared runs of 2047..40000 bytes in front of a 257-bit node: refused only beyond the documented key length, otherwise every key is found with its record"})
 	// ---- C16 ----
 	out = append(out, &HarnessSpec{Name: "arr_map", Pkg: "array", Property: "C16", Witness: 1,
 		Quick: []Grid{{"type": rng(0, 5), "n": {1}, "words": rng(0, 5), "pw": rng(0, 5), "loaded": {0}},
